@@ -29,15 +29,27 @@ META = dict(
                "the categorical acceptor accepts s iff s = (one exclusive option | additive options joined by single "
                "'+') followed by white space only, never the empty value; get_units / get_exclusive_options / "
                "get_additive_options applied to a built pattern return the lists it was built from (any characters, "
-               "including regex metacharacters). Model tied to regex.py / uod.py by differential execution.",
+               "including regex metacharacters). The EMITTED regular expressions are covered too: the abstract syntax of the "
+               "three pattern shapes has a declarative language semantics in Lean, and regex_number_language / "
+               "regex_categorical_language prove that this language is the documented one (= what the acceptors accept) "
+               "for all lists, flags and strings; on every run the pattern text each builder call returns is parsed with "
+               "CPython's own regex parser and decided structurally equal (driver op ast*) to that abstract syntax for "
+               "the units / options / flags read off the pattern. Model tied to regex.py / uod.py by differential "
+               "execution.",
     level_note="Trusted: Lean kernel, harness, CPython `re` (modelled for these pattern shapes only; validated "
                "differentially incl. captured groups). 'Optionally followed by a unit' is read as the code and its "
                "tests define it: a pattern built WITH units requires one of them, a pattern built without units "
                "accepts none. Leading/trailing white space is tolerated by the numeric pattern, trailing white space "
-               "by the categorical one. Introspection theorems assume non-empty units/options; the model is of the "
-               "code after the proposed repair (fixes/C22-…diff).",
+               "by the categorical one. Introspection theorems assume non-empty units/options and state the list in "
+               "pattern order; the oracle compares introspected and emitted lists with the declared ones as multisets "
+               "(the property does not pin an order). The regex parser of CPython (re._parser) is trusted to show the "
+               "pattern as `re` compiles it; that `re` matches according to the language of that syntax tree is the "
+               "differential part. The model is of the repaired code (fix commit 9ee22bc6).",
     technique="Lean 4 proof (soundness/completeness of a priority-ordered backtracking acceptor w.r.t. a declarative "
-              "language; token-level induction for the introspection scanners) + differential correspondence",
+              "language; language of the emitted regex AST = documented language; token-level induction for the "
+              "introspection scanners) + per-instance structural translation of the emitted pattern (CPython regex "
+              "parser -> normalised AST -> decidable equality with the Lean AST; chosen instead of a bounded exhaustive "
+              "language comparison) + differential correspondence (captured groups, introspection, pattern text)",
 )
 MODULE = "OPM.Properties.C22"
 REQUIRED = ["OPM.C22.number_accepts_iff_documented", "OPM.C22.number_delivers_documented_parts",
@@ -45,7 +57,9 @@ REQUIRED = ["OPM.C22.number_accepts_iff_documented", "OPM.C22.number_delivers_do
             "OPM.C22.categorical_accepts_iff_documented", "OPM.C22.categorical_sound",
             "OPM.C22.categorical_delivered_unchanged", "OPM.C22.categorical_never_empty",
             "OPM.C22.categorical_rejects_blank", "OPM.C22.units_introspection", "OPM.C22.exclusive_introspection",
-            "OPM.C22.additive_introspection"]
+            "OPM.C22.additive_introspection", "OPM.C22.regex_number_language", "OPM.C22.regex_categorical_language",
+            "OPM.C22.regex_number_is_acceptor", "OPM.C22.regex_categorical_is_acceptor",
+            "OPM.C22.regex_number_optional_is_acceptor", "OPM.C22.dollar_is_end"]
 
 SANE_UNITS = ["m2", "L/h", "%", "degC", "kg", "s", "min", "h", "mS/cm", "CV", "(L/h)/%", "a|b", "µS", "m.s", "x+y",
               "[u]", "r^2", "$", "a\\b", "{q}", "#", "~", "&", "m*", "u?", "-x", "<number_unit>", "E F", "x)y", ")"]
@@ -148,12 +162,20 @@ def doc_categorical(t: str, ex, ad) -> bool:
 # ----------------------------------------------------------------------------------------------
 # generators
 
+PREFIX_FAMILIES = [["L", "L/h", "L/h/m2"], ["m", "m2", "min"], ["VA0", "VA01", "VA01+"], ["A", "AB", "ABC"],
+                   ["x", "x+", "x+y"], ["kg", "k", "g"], ["a|", "a|b", "a"]]
+
+
 def pick_list(rng, sane, weird, allow_none=True, weird_p=0.12, maxlen=4):
     k = rng.random()
     if allow_none and k < 0.12:
         return None
     if k < 0.18:
         return []
+    if k < 0.30:                      # items that are prefixes of one another, in random order
+        fam = list(rng.choice(PREFIX_FAMILIES))
+        rng.shuffle(fam)
+        return fam[:rng.randrange(2, len(fam) + 1)]
     n = rng.randrange(1, maxlen + 1)
     out = []
     for _ in range(n):
@@ -268,11 +290,11 @@ def gen_cases(ctx: Check):
                     cases.append({"kind": "num", "units": units, "nn": nn, "io": io, "optional": opt,
                                   "strings": token_strings(toks, ctx.n(3, 4)), "scope": "exh"})
     # random configurations
-    for _ in range(ctx.n(120, 2500)):
+    for _ in range(ctx.n(90, 2500)):
         ex = pick_list(rng, SANE_OPTIONS, WEIRD_OPTIONS)
         ad = pick_list(rng, SANE_OPTIONS, WEIRD_OPTIONS)
         cases.append({"kind": "cat", "ex": ex, "ad": ad, "strings": cat_strings(rng, ex, ad, ctx.n(50, 80))})
-    for _ in range(ctx.n(120, 2500)):
+    for _ in range(ctx.n(90, 2500)):
         units = pick_list(rng, SANE_UNITS, WEIRD_UNITS, maxlen=5)
         nn, io = rng.random() < 0.4, rng.random() < 0.3
         cases.append({"kind": "num", "units": units, "nn": nn, "io": io, "optional": rng.random() < 0.25,
@@ -303,12 +325,224 @@ def parser_for(pattern: str):
     return RegexNamedArgumentParser(pattern)
 
 
+# ----------------------------------------------------------------------------------------------
+# translator: emitted pattern text --(CPython's regex parser)--> normalised AST (wire format of Model/ArgRegexAst.lean)
+# + the parameters (units / options / flags) read off the pattern.  Normalisation: see the header of that Lean file.
+
+class Untranslatable(Exception):
+    pass
+
+
+def _sre():
+    from re import _parser as P, _constants as K    # CPython >= 3.11
+    return P, K
+
+
+def expand_literals(seq):
+    """The finite list of literal strings a (sub)pattern stands for, in pattern order, or None.
+    Undoes the common-prefix / character-set factoring CPython's parser applies to `U1|U2|…`."""
+    P, K = _sre()
+    outs = [""]
+    items = list(seq)
+    for i, (op, av) in enumerate(items):
+        if op is K.LITERAL:
+            outs = [o + chr(av) for o in outs]
+        elif op is K.IN and all(o2 is K.LITERAL for o2, _ in av):
+            outs = [o + chr(c) for o in outs for _, c in av]
+        elif op is K.BRANCH:
+            alts = []
+            for item in av[1]:
+                sub = expand_literals(item)
+                if sub is None:
+                    return None
+                alts += sub
+            outs = [o + a for o in outs for a in alts]
+        elif op is K.ASSERT_NOT and av[0] == 1 and len(av[1]) == 0 and len(items) == 1:
+            return []          # `(?!)`: no alternative at all
+        else:
+            return None
+    return outs
+
+
+def lit_node(x: str):
+    return mkseq([("C", ord(c)) for c in x])
+
+
+def mkseq(nodes):
+    return nodes[0] if len(nodes) == 1 else ("q", nodes)
+
+
+def mkalt(nodes):
+    return nodes[0] if len(nodes) == 1 else ("a", nodes)
+
+
+def tr_seq(seq, names):
+    lits = expand_literals(seq)
+    if lits is not None:
+        return mkalt([lit_node(x) for x in lits])
+    return mkseq([tr_item(op, av, names) for op, av in seq])
+
+
+def tr_item(op, av, names):
+    P, K = _sre()
+    if op is K.LITERAL:
+        return ("C", av)
+    if op is K.IN:
+        if len(av) == 1 and av[0][0] is K.CATEGORY and av[0][1] is K.CATEGORY_SPACE:
+            return ("S",)
+        if len(av) == 1 and av[0][0] is K.RANGE and av[0][1] == (48, 57):
+            return ("D",)
+        if all(o is K.LITERAL for o, _ in av):
+            return mkalt([("C", c) for _, c in av])
+        raise Untranslatable(f"character set {av!r}")
+    if op in (K.MAX_REPEAT, K.MIN_REPEAT):        # lazy = greedy for the language
+        lo, hi, sub = av
+        body = tr_seq(sub, names)
+        if (lo, hi) == (0, K.MAXREPEAT):
+            return ("*", body)
+        if (lo, hi) == (1, K.MAXREPEAT):
+            return ("p", body)
+        if (lo, hi) == (0, 1):
+            return ("o", body)
+        raise Untranslatable(f"repeat {lo},{hi}")
+    if op is K.SUBPATTERN:
+        gid, add, dele, sub = av
+        if add or dele:
+            raise Untranslatable("inline flags")
+        body = tr_seq(sub, names)
+        return ("g", names[gid], body) if gid in names else body     # unnamed groups are transparent
+    if op is K.BRANCH:
+        return mkalt([tr_seq(item, names) for item in av[1]])
+    if op is K.ASSERT_NOT and av[0] == 1 and len(av[1]) == 0:
+        return ("N",)
+    raise Untranslatable(f"operator {op}")
+
+
+def strip_anchors(seq):
+    P, K = _sre()
+    items = list(seq)
+    if len(items) < 2 or items[0] != (K.AT, K.AT_BEGINNING) or items[-1] != (K.AT, K.AT_END):
+        raise Untranslatable("pattern is not anchored ^…$")
+    return items[1:-1]
+
+
+def wire(node) -> str:
+    k = node[0]
+    if k in ("S", "D", "N"):
+        return k
+    if k == "C":
+        return f"C{node[1]}"
+    if k in ("*", "p", "o"):
+        return f"{k} {wire(node[1])}"
+    if k == "g":
+        return "g" + "_".join(str(ord(c)) for c in node[1]) + " " + wire(node[2])
+    return f"{k}{len(node[1])}" + "".join(" " + wire(n) for n in node[1])    # q / a  (q0 = ε, a0 = never)
+
+
+def find_group(node, name):
+    if node[0] == "g":
+        return node if node[1] == name else find_group(node[2], name)
+    if node[0] in ("*", "p", "o"):
+        return find_group(node[1], name)
+    if node[0] in ("q", "a"):
+        for n in node[1]:
+            r = find_group(n, name)
+            if r is not None:
+                return r
+    return None
+
+
+def translate(pattern: str, kind: str, optional: bool = False):
+    """-> dict(ast=<wire text>, and for kind 'num': units, nn, io; for 'cat': ex, ad) — read off the pattern alone."""
+    P, K = _sre()
+    tree = P.parse(pattern)
+    names = {gid: name for name, gid in tree.state.groupdict.items()}
+    top = list(tree)
+    if kind == "num" and optional:
+        if len(top) != 1 or top[0][0] is not K.BRANCH or len(top[0][1][1]) != 2:
+            raise Untranslatable("optional pattern is not `(…)|^\\s*$`")
+        first, second = top[0][1][1]
+        if len(first) != 1 or first[0][0] is not K.SUBPATTERN or first[0][1][0] in names:
+            raise Untranslatable("optional pattern: first alternative is not a plain group")
+        body_items = strip_anchors(first[0][1][3])
+        node = mkalt([mkseq([tr_item(o, a, names) for o, a in body_items]),
+                      mkseq([tr_item(o, a, names) for o, a in strip_anchors(second)])])
+    else:
+        body_items = strip_anchors(top)
+        node = mkseq([tr_item(o, a, names) for o, a in body_items])
+    out = {"ast": wire(node)}
+    # parameters, from the parse tree of the pattern
+    groups = {}
+
+    def walk(seq):
+        for op, av in seq:
+            if op is K.SUBPATTERN:
+                if av[0] in names:
+                    groups[names[av[0]]] = av[3]
+                walk(av[3])
+            elif op in (K.MAX_REPEAT, K.MIN_REPEAT):
+                walk(av[2])
+            elif op is K.BRANCH:
+                for item in av[1]:
+                    walk(item)
+    walk(tree)
+    if kind == "num":
+        num = groups.get("number")
+        if num is None:
+            raise Untranslatable("no group `number`")
+        alts = num[0][1][1] if len(num) == 1 and num[0][0] is K.BRANCH else [num]
+        sign = (K.MAX_REPEAT, (0, 1, None))
+        out["nn"] = not any(op is K.MAX_REPEAT and av[0] == 0 and av[1] == 1 and list(av[2]) == [(K.LITERAL, 45)]
+                            for item in alts for op, av in item)
+        out["io"] = len(alts) == 2
+        u = groups.get("number_unit")
+        out["units"] = [] if u is None else expand_literals(u)
+        if out["units"] is None:
+            raise Untranslatable("group `number_unit` is not a list of literal alternatives")
+    else:
+        opt = groups.get("option")
+        if opt is None or len(opt) != 1 or opt[0][0] is not K.SUBPATTERN:
+            raise Untranslatable("no group `option` around one group")
+        inner = opt[0][1][3]
+        if len(inner) != 1 or inner[0][0] is not K.BRANCH:
+            raise Untranslatable("`option` is not an alternation")
+        items = inner[0][1][1]
+        ex = []
+        for item in items[:-1]:
+            e = expand_literals(item)
+            if e is None:
+                raise Untranslatable("exclusive alternative is not a literal")
+            ex += e
+        last = items[-1]
+        if not last or last[0][0] is not K.SUBPATTERN:
+            raise Untranslatable("last alternative does not start with the additive group")
+        ad = expand_literals(last[0][1][3])
+        if ad is None:
+            raise Untranslatable("additive group is not a list of literal alternatives")
+        out["ex"], out["ad"] = ex, ad
+    return out
+
+
+def read_off(case, pat):
+    """Parameters and AST of the emitted pattern; falls back to the declared parameters (and an AST that cannot be
+    equal) when the pattern does not have the documented shape."""
+    try:
+        return translate(pat, case["kind"], case.get("optional", False))
+    except Exception as e:
+        t = {"ast": "E", "error": f"{type(e).__name__}: {e}"}
+        if case["kind"] == "num":
+            t.update(units=case["units"] or [], nn=case["nn"], io=case["io"])
+        else:
+            t.update(ex=case["ex"] or [], ad=case["ad"] or [])
+        return t
+
+
 def impl_case(case) -> list[str]:
     pat = safe_build(case)
     if pat is None:
         return ["err:TypeError"]
     p = parser_for(pat)
-    out = [enc(pat)]
+    out = [enc(pat), "same"]
     for s in case["strings"]:
         g = p.parse(s)
         if (g is not None) != p.validate(s):
@@ -327,18 +561,23 @@ def impl_case(case) -> list[str]:
 
 
 def case_lines(case) -> list[str]:
+    """The model is instantiated with what the EMITTED pattern says (units / options in pattern order, flags):
+    line 1 ties the pattern text to the model's builder text, line 2 decides that the parsed pattern is the model's
+    regex AST, the following lines tie re.search on the pattern to the acceptor for the same parameters.  That the
+    emitted parameters are the DECLARED ones is the oracle's business (as sets)."""
     pat = safe_build(case)
+    if pat is None:
+        return [f"bc\t{enc_list(case['ex'])}\t{enc_list(case['ad'])}"]
+    t = read_off(case, pat)
     if case["kind"] == "cat":
-        ex, ad = enc_list(case["ex"]), enc_list(case["ad"])
-        out = [f"bc\t{ex}\t{ad}"]
-        if pat is None:
-            return out
+        ex, ad = enc_list(t["ex"]), enc_list(t["ad"])
+        out = [f"bc\t{ex}\t{ad}", f"astc\t{ex}\t{ad}\t{t['ast']}"]
         out += [f"ac\t{ex}\t{ad}\t{enc(s)}" for s in case["strings"]]
     else:
-        a = f"{encb(case['nn'])}\t{encb(case['io'])}\t{enc_list(case['units'])}"
-        out = [("bno\t" if case["optional"] else "bn\t") + a]
-        op = "ano" if case["optional"] else "an"
-        out += [f"{op}\t{a}\t{enc(s)}" for s in case["strings"]]
+        a = f"{encb(t['nn'])}\t{encb(t['io'])}\t{enc_list(t['units'])}"
+        o = "o" if case["optional"] else ""
+        out = [f"bn{o}\t{a}", f"astn{o}\t{a}\t{t['ast']}"]
+        out += [f"an{o}\t{a}\t{enc(s)}" for s in case["strings"]]
     e = enc(pat)
     return out + [f"ng\t{e}", f"gu\t{e}", f"ge\t{e}", f"ga\t{e}"]
 
@@ -374,6 +613,7 @@ def oracle(case) -> list[Failure]:
             c["strings"] = [s] if s is not None else []
             fails.append(Failure(key, c, detail))
 
+    oracle_emitted(case, pat, add)
     if case["kind"] == "cat":
         ex, ad = case["ex"] or [], case["ad"] or []
         sane = all(is_sane(o) for o in ex + ad)
@@ -399,11 +639,11 @@ def oracle(case) -> list[Failure]:
                        "categorical-accepts-undocumented")
                 add(key, s, f"{pat!r} accepts {s!r} (option={o!r}); exclusive={ex!r} additive={ad!r}")
         if all(o != "" for o in ex + ad):
-            ge, ga = show_list(p.get_exclusive_options), show_list(p.get_additive_options)
-            if ge != "ok\t" + enc_list(ex):
+            ge, ga = same_items(p.get_exclusive_options, ex), same_items(p.get_additive_options, ad)
+            if not ge:
                 add("introspection-exclusive-options-differ" + ("-bar" if any("|" in o for o in ex) else ""), None,
                     f"built from exclusive={ex!r}, get_exclusive_options() = {_try(p.get_exclusive_options)}")
-            if ga != "ok\t" + enc_list(ad):
+            if not ga:
                 add("introspection-additive-options-differ" + ("-bar" if any("|" in o for o in ad) else ""), None,
                     f"built from additive={ad!r}, get_additive_options() = {_try(p.get_additive_options)}")
     else:
@@ -423,12 +663,38 @@ def oracle(case) -> list[Failure]:
                 elif d is not None and (g["number"], g.get("number_unit")) != d:
                     add("number-parts-changed", s, f"{s!r} delivered as {g!r}, documented parts {d!r}")
         if all(u != "" for u in units):
-            gu = show_list(p.get_units)
-            if gu != "ok\t" + enc_list(units):
+            if not same_items(p.get_units, units):
                 add("introspection-units-differ" + ("-optional-pattern" if opt else "") +
                     ("-bar" if any("|" in u for u in units) else ""), None,
                     f"built from units={units!r}, get_units() = {_try(p.get_units)}")
     return fails
+
+
+def same_items(fn, declared) -> bool:
+    """'exactly those it was built from': the same items, each as often as declared; the property does not pin
+    the order in which a pattern lists them."""
+    try:
+        return sorted(fn()) == sorted(declared)
+    except Exception:
+        return False
+
+
+def oracle_emitted(case, pat, add) -> None:
+    """The alternatives / flags the emitted pattern contains (read off its parse tree) are the declared ones."""
+    try:
+        t = translate(pat, case["kind"], case.get("optional", False))
+    except Exception:
+        return      # not of the documented shape: the correspondence reports that; nothing to judge here
+    if case["kind"] == "num":
+        if sorted(t["units"]) != sorted(case["units"] or []):
+            add("pattern-units-differ-from-declared", None, f"declared {case['units']!r}, pattern {pat!r} lists {t['units']!r}")
+        if (t["nn"], t["io"]) != (case["nn"], case["io"]):
+            add("pattern-flags-differ-from-declared", None,
+                f"declared non_negative={case['nn']} int_only={case['io']}, pattern {pat!r} has {t['nn']}/{t['io']}")
+    else:
+        if sorted(t["ex"]) != sorted(case["ex"] or []) or sorted(t["ad"]) != sorted(case["ad"] or []):
+            add("pattern-options-differ-from-declared", None,
+                f"declared exclusive={case['ex']!r} additive={case['ad']!r}, pattern {pat!r} lists {t['ex']!r} / {t['ad']!r}")
 
 
 def _try(fn):
